@@ -1,6 +1,7 @@
 package types
 
 import (
+	"go/ast"
 	"go/token"
 	"go/types"
 	"os"
@@ -98,50 +99,70 @@ func vImports(n int, sparse bool) {
 		verifsym.Assume(any)
 	}
 
-	var patterns []string
-	for i, d := range direct {
-		if d {
-			patterns = append(patterns, mod+"/"+names[i])
-		}
-	}
 	var u *Universe
 	var err error
 	root := "/vfs/m"
 	if !verifsym.Symbolic() {
 		root = verifsym.FSRoot() + "/m"
 	}
+	// symbolically, the first package is the module's root package (import path = module path, directory = module directory)
+	rootPkg := !sparse && verifsym.Bool()
+	pp := func(i int) string {
+		if rootPkg && i == 0 {
+			return mod
+		}
+		return mod + "/" + names[i]
+	}
+	pd := func(i int) string {
+		if rootPkg && i == 0 {
+			return root
+		}
+		return root + "/" + names[i]
+	}
+	var patterns []string
+	for i, d := range direct {
+		if d {
+			patterns = append(patterns, pp(i))
+		}
+	}
 	if verifsym.Symbolic() {
 		module := &packages.Module{Path: mod, Dir: root, GoVersion: "1.24"}
-		pkgs := make([]*packages.Package, n)
-		for i := range pkgs {
-			pkgs[i] = &packages.Package{ID: mod + "/" + names[i], PkgPath: mod + "/" + names[i], Name: names[i], Dir: root + "/" + names[i],
-				Module: module, Imports: map[string]*packages.Package{}, Types: types.NewPackage(mod+"/"+names[i], names[i]),
-				TypesInfo: &types.Info{}, Fset: token.NewFileSet()}
-		}
-		for i := range pkgs {
-			for j := i + 1; j < n; j++ {
-				if edge[i][j] {
-					pkgs[i].Imports[pkgs[j].PkgPath] = pkgs[j]
+		build := func(cfg *packages.Config) []*packages.Package {
+			pkgs := make([]*packages.Package, n)
+			for i := range pkgs {
+				// one source file per package, registered in the FileSet Load configured
+				tf := cfg.Fset.AddFile(pd(i)+"/"+names[i]+".go", -1, 100)
+				file := &ast.File{Package: token.Pos(tf.Base()), Name: ast.NewIdent(names[i]), FileStart: token.Pos(tf.Base()), FileEnd: token.Pos(tf.Base() + 100)}
+				pkgs[i] = &packages.Package{ID: pp(i), PkgPath: pp(i), Name: names[i], Dir: pd(i),
+					Module: module, Imports: map[string]*packages.Package{}, Types: types.NewPackage(pp(i), names[i]),
+					TypesInfo: &types.Info{}, Fset: cfg.Fset, Syntax: []*ast.File{file}}
+			}
+			for i := range pkgs {
+				for j := i + 1; j < n; j++ {
+					if edge[i][j] {
+						pkgs[i].Imports[pkgs[j].PkgPath] = pkgs[j]
+					}
 				}
 			}
-		}
-		// `go list -deps` (which go/packages drives) lists dependencies before their
-		// importers, and the roots come back in that order: mirror it
-		var roots []*packages.Package
-		for i := n - 1; i >= 0; i-- {
-			if direct[i] {
-				roots = append(roots, pkgs[i])
+			// `go list -deps` (which go/packages drives) lists dependencies before their
+			// importers, and the roots come back in that order: mirror it
+			var roots []*packages.Package
+			for i := n - 1; i >= 0; i-- {
+				if direct[i] {
+					roots = append(roots, pkgs[i])
+				}
 			}
+			return roots
 		}
 		// the package directories as the filesystem model sees them (for the directory hashes)
-		for _, nm := range names {
-			verifsym.FSPut(root+"/"+nm+"/"+nm+".go", "package "+nm+"\n")
-			verifsym.FSPut(root+"/"+nm+"/.hidden.json", "{}\n")
+		for i, nm := range names {
+			verifsym.FSPut(pd(i)+"/"+nm+".go", "package "+nm+"\n")
+			verifsym.FSPut(pd(i)+"/.hidden.json", "{}\n")
 		}
 		if vBlobKB > 0 {
-			verifsym.FSPut(root+"/"+names[0]+"/blob.bin", vBlob())
+			verifsym.FSPut(pd(0)+"/blob.bin", vBlob())
 		}
-		verifsym.Provide("packages.Load", roots)
+		verifsym.Provide("packages.Load", build)
 		u, err = Load(patterns)
 	} else {
 		verifsym.FSPut(root+"/go.mod", "module "+mod+"\n\ngo 1.24\n")
@@ -149,14 +170,14 @@ func vImports(n int, sparse bool) {
 			src := "package " + nm + "\n"
 			for j := i + 1; j < n; j++ {
 				if edge[i][j] {
-					src += "\nimport _ \"" + mod + "/" + names[j] + "\"\n"
+					src += "\nimport _ \"" + pp(j) + "\"\n"
 				}
 			}
-			verifsym.FSPut(filepath.Join(root, nm, nm+".go"), src)
-			verifsym.FSPut(filepath.Join(root, nm, ".hidden.json"), "{}\n") // a dot-file is part of the directory too
+			verifsym.FSPut(filepath.Join(pd(i), nm+".go"), src)
+			verifsym.FSPut(filepath.Join(pd(i), ".hidden.json"), "{}\n") // a dot-file is part of the directory too
 		}
 		if vBlobKB > 0 {
-			verifsym.FSPut(filepath.Join(root, names[0], "blob.bin"), vBlob())
+			verifsym.FSPut(filepath.Join(pd(0), "blob.bin"), vBlob())
 		}
 		os.Setenv("GOFLAGS", "-mod=mod")
 		u, err = Load(patterns, WithDir(root))
@@ -178,16 +199,22 @@ func vImports(n int, sparse bool) {
 		}
 	}
 	for i := range names {
-		path := mod + "/" + names[i]
+		path := pp(i)
 		p := u.Package(path)
 		verifsym.Assert((p != nil) == reach[i], "the set of registered packages is not the set reachable from the entrypoints")
 		if p == nil {
 			continue
 		}
+		verifsym.Assert(p.SourceDir() == pd(i), "SourceDir() is not the directory holding the package's files")
+		if fs := p.Files(); len(fs) > 0 {
+			verifsym.Assert(u.LocateInPackage(fs[0].Package) == p, "LocateInPackage(pos) is not the package whose file contains pos")
+		} else {
+			verifsym.Assert(false, "harness: a loaded package without files")
+		}
 		nimp := 0
 		for j := i + 1; j < n; j++ {
 			if edge[i][j] {
-				ipath := mod + "/" + names[j]
+				ipath := pp(j)
 				imp, ok := p.Imports()[ipath]
 				verifsym.Assert(ok, "an import path of the package is missing from Imports()")
 				verifsym.Assert(imp != nil, "Imports() maps an import path to a nil Package")
@@ -202,7 +229,7 @@ func vImports(n int, sparse bool) {
 			}
 		}
 		verifsym.Assert(count == nimp, "Imports() lists a module package that is not imported")
-		want, herr := dirhash.HashDir(root+"/"+names[i], "", dirhash.Hash1)
+		want, herr := dirhash.HashDir(pd(i), "", dirhash.Hash1)
 		verifsym.Assert(herr == nil && want != "", "harness: cannot hash the package directory")
 		verifsym.Assert(u.SumFile().Sum(path) == want, "the sum recorded for a local package is not the hash of its directory at load time")
 	}
@@ -213,7 +240,7 @@ func vImports(n int, sparse bool) {
 		prev = path
 		nlocal++
 		for i := range names {
-			if path == mod+"/"+names[i] {
+			if path == pp(i) {
 				verifsym.Assert(d == direct[i], "a package is flagged direct although it was not requested (or the reverse)")
 			}
 		}
